@@ -3,6 +3,7 @@ package props
 import (
 	"context"
 	"fmt"
+	"google.golang.org/grpc/credentials"
 	"sort"
 	"strings"
 	"sync" // nosim
@@ -122,12 +123,22 @@ func (t *grpcTarget) Stats(ctx context.Context, r *server.StatsRequest) (*server
 
 // startGRPCTarget starts the gRPC server (with reflection) on the simulated network; call inside the bubble.
 func startGRPCTarget(n *simnet.Net, addr string, script func(n int, c *grpcCall) grpcAnswer) *grpcTarget {
+	return startGRPCTargetTLS(n, addr, false, script)
+}
+
+// startGRPCTargetTLS: the same server behind TLS (the gun's tls option; the gun does not verify the certificate).
+func startGRPCTargetTLS(n *simnet.Net, addr string, useTLS bool, script func(n int, c *grpcCall) grpcAnswer) *grpcTarget {
 	ln, err := n.Listen(addr)
 	if err != nil {
 		panic(err)
 	}
 	t := &grpcTarget{t0: time.Now(), Script: script}
-	t.srv = grpc.NewServer(grpc.UnaryInterceptor(t.intercept))
+	sopts := []grpc.ServerOption{grpc.UnaryInterceptor(t.intercept)}
+	if useTLS {
+		cert := testCert()
+		sopts = append(sopts, grpc.Creds(credentials.NewServerTLSFromCert(&cert)))
+	}
+	t.srv = grpc.NewServer(sopts...)
 	server.RegisterTargetServiceServer(t.srv, t)
 	reflection.Register(t.srv)
 	go func() { // nosim
